@@ -143,6 +143,10 @@ EXTRA3 = {'C02': 'Two programs preempted at every statement of the serializer / 
 for pid, extra in EXTRA3.items():
     CHECKS[pid]["text"] = CHECKS[pid]["text"].rstrip() + " " + extra
 
+EXTRA4 = {'C01': 'Pipelined batches on every transport (a value just above 64 KiB / 200 kB with small values right behind it).', 'C03': 'Close histories with a 70 kB frame of another channel in flight and the collector as an environment choice.', 'C04': 'Base G: a callback failing on an item while the peer dies.', 'C05': 'One more frame for a gateway after its exit() (late-frame variants).', 'C07': 'The failure arrived but was consumed only after the connection was lost (crash-after-error); a failure whose text is not UTF-8 encodable.', 'C10': "setcallback only after the conversation is over, followed by close() and the gateway's end.", 'C13': 'Two concurrent loads() preempted at every unserializer statement.', 'C14': 'A body submitted while a short one still runs (admitted afterwards) followed by an overlap that must be refused.', 'C15': 'Source bootstrap over a virtual pipe of ordinary capacity whose raw writes are short.', 'C16': "Program 'peer-dies' (the worker kills itself mid-conversation with a second channel open) on every transport, virtual and real.", 'C18': "Callback conversations ended by the dropped handle making the body's receive() raise EOFError.", 'C20': "The operation 'iterate over the group and exit every member met' in the call histories."}
+for pid, extra in EXTRA4.items():
+    CHECKS[pid]["text"] = CHECKS[pid]["text"].rstrip() + " " + extra
+
 checks = []
 for pid, c in CHECKS.items():
     checks.append({
